@@ -22,6 +22,7 @@ RULE = ('cases = generated (taxonomy, per-cell labels incl. unlabelled cells / e
         'on any of the three routes, optional split into datasets for the merge) plus an enumerated family (every special row kind x dtype x worker count x chunk size); '
         'every written file is compared with direct computation and with the baseline layout, every order-preserving sub-hierarchy is truncated; '
         'non-trivial = in some layout a cluster has member cells in >=2 chunks or files that are handled by >=2 workers; distinct = distinct spec hash')
+RULE += '; additions: a cluster of 254-300 cells, named obs / var indexes'
 ASSUMPTIONS = ['all files of one run share one gene order (the writers reject anything else)',
                'every cell named by the taxonomy is present in exactly one file (documented requirement of the file-list route)',
                'entries with log2(CPM+1) in (1-2e-6, 1) may be counted either way by ge1 (implementation counts > 1-1e-6); they are counted as band',
